@@ -5,6 +5,7 @@ import Compass.Drv.C07
 import Compass.Drv.C11
 import Compass.Drv.C18
 import Compass.Drv.C20
+import Compass.Drv.C16
 
 /-- `driver <prop>`: reads one case per line on stdin, prints the model's canonical output line -/
 partial def loop (h : IO.FS.Stream) (out : IO.FS.Stream) (f : String → String) : IO Unit := do
@@ -30,6 +31,7 @@ def dispatch : String → Option (String → String)
   | "C11" => some Compass.Drv.C11.run
   | "C18" => some Compass.Drv.C18.run
   | "C20" => some Compass.Drv.C20.run
+  | "C16" => some Compass.Drv.C16.run
   | _ => none
 
 def main (args : List String) : IO UInt32 := do
